@@ -586,7 +586,28 @@ public:
                 return;
             }
             if (const auto *L = dyn_cast<LambdaExpr>(S)) {
-                LambdaTryBase.push_back(Tries.size());
+                // A lambda body normally runs while the enclosing full-expression / function is active (passed to an
+                // algorithm, Timer::run, or called through a local variable), so it keeps the enclosing handlers.  It is
+                // detached only when it is handed to std::async / std::thread or stored in a data member.
+                bool detached = false;
+                for (size_t i = Stack.size(); i > 0; --i) {
+                    const Stmt *P = Stack[i - 1];
+                    if (isa<ImplicitCastExpr>(P) || isa<MaterializeTemporaryExpr>(P) || isa<ExprWithCleanups>(P) ||
+                        isa<CXXBindTemporaryExpr>(P) || isa<CXXConstructExpr>(P) || isa<CXXFunctionalCastExpr>(P))
+                        continue;
+                    if (const auto *CE = dyn_cast<CallExpr>(P)) {
+                        if (const FunctionDecl *FD = CE->getDirectCallee()) {
+                            std::string n = qname(FD);
+                            if (n == "std::async" || n == "std::thread::thread")
+                                detached = true;
+                        }
+                        if (const auto *OC = dyn_cast<CXXOperatorCallExpr>(P))
+                            if (OC->getOperator() == OO_Equal && OC->getNumArgs() > 0 && isa<MemberExpr>(OC->getArg(0)->IgnoreParenImpCasts()))
+                                detached = true;
+                    }
+                    break;
+                }
+                LambdaTryBase.push_back(detached ? Tries.size() : (LambdaTryBase.empty() ? 0 : LambdaTryBase.back()));
                 J.attributeBegin("params");
                 J.arrayBegin();
                 if (const CXXMethodDecl *Op = L->getCallOperator())
